@@ -209,6 +209,7 @@ type cgraph struct {
 	seen  map[string]bool
 	vals  map[string]ssa.Value
 	alias map[string]string // union-find over register terms made equal by E-facts
+	rows  map[string][]int64 // rows of FindAll results named so far: list@baseterm -> offsets
 }
 
 func (g *cgraph) find(t string) string {
